@@ -137,7 +137,7 @@ func gen(t *rapid.T) *Case {
 	case "pure":
 		c.In = rapid.SampledFrom([]string{"typed", "string", "xml", "gnmi", "gnmi-ascii"}).Draw(t, "in")
 	case "pipeline":
-		c.In = rapid.SampledFrom([]string{"typed", "string", "json", "json_ietf"}).Draw(t, "in")
+		c.In = rapid.SampledFrom([]string{"typed", "string", "json", "json_ietf", "json-leaf", "json_ietf-leaf"}).Draw(t, "in")
 	case "equal":
 		c.In = "string"
 		if rapid.Bool().Draw(t, "same") {
@@ -596,10 +596,35 @@ func execPipeline(ctx context.Context, n *vlib.Node, c *Case) *vlib.Failure {
 		tgt := map[string]string{"lrefu": "u64", "lrefi": "idr"}[n.Name]
 		explicit[vlib.P("types", tgt).Canon()] = explicit[path.Canon()]
 	}
-	ri := vlib.ResolvedIntent{Name: "own0", Kind: "set", Prio: 10, Explicit: explicit, Form: c.In}
+	form := c.In
+	if strings.HasSuffix(form, "-leaf") {
+		form = "typed"
+	}
+	ri := vlib.ResolvedIntent{Name: "own0", Kind: "set", Prio: 10, Explicit: explicit, Form: form}
 	req, err := vlib.BuildIntentRequest(ri)
 	if err != nil {
 		harnessErr(err)
+	}
+	if strings.HasSuffix(c.In, "-leaf") && (n.Kind == vlib.KLeafList || n.Type == "empty" || (c.In == "json_ietf-leaf" && (n.Type == "identityref" || n.LeafrefTo == "identityref"))) {
+		// a JSON value addressed by the leaf path is only exercised for scalar leaves (arrays / [null] at a leaf path are not an input form the code claims)
+		vlib.GetStats("C12").Discard("json-at-leaf-path-only-for-scalar-leaves")
+		return nil
+	}
+	if strings.HasSuffix(c.In, "-leaf") {
+		// the JSON value of the leaf, addressed by the leaf path itself
+		ietf := c.In == "json_ietf-leaf"
+		for _, u := range req.Update {
+			up := vlib.FromSdcpb(u.Path)
+			b, err := vlib.JSONLeafValue(up, explicit[up.Canon()], ietf)
+			if err != nil {
+				harnessErr(err)
+			}
+			if ietf {
+				u.Value = &sdcpb.TypedValue{Value: &sdcpb.TypedValue_JsonIetfVal{JsonIetfVal: b}}
+			} else {
+				u.Value = &sdcpb.TypedValue{Value: &sdcpb.TypedValue_JsonVal{JsonVal: b}}
+			}
+		}
 	}
 	if c.In == "string" && n.Kind == vlib.KLeaf {
 		for _, u := range req.Update {
@@ -727,7 +752,7 @@ func TestSurvey(t *testing.T) {
 					}
 					run(&Case{Leaf: n.Name, Vals: []string{v}, In: in, Mode: "pure", Pad: pad})
 				}
-				for _, in := range []string{"typed", "string", "json", "json_ietf"} {
+				for _, in := range []string{"typed", "string", "json", "json_ietf", "json-leaf", "json_ietf-leaf"} {
 					if n.Type == "empty" && in == "string" {
 						continue
 					}
